@@ -173,7 +173,7 @@ struct ChunkPol {
 	unsigned phase = 0;
 };
 
-enum ItemKind { IT_WRITE, IT_CLOSE, IT_RENEG, IT_FLUSH, IT_WAIT_PEER_IDLE };
+enum ItemKind { IT_WRITE, IT_CLOSE, IT_RENEG, IT_FLUSH, IT_WAIT_PEER_IDLE, IT_SYNC, IT_WAIT_EPOCH };
 struct Item {
 	ItemKind kind;
 	size_t len = 0;
@@ -304,6 +304,21 @@ struct Session {
 		case IT_RENEG:
 			if (!e->handshake_done()) return false;
 			reneg_result[side] = e->renegotiate() ? 1 : 0;
+			script[side].pop_front();
+			return true;
+		case IT_SYNC: {
+			// barrier: both sides at SYNC(len) and everything written so far delivered
+			std::deque<Item> &o = script[1 - side];
+			if (o.empty() || o.front().kind != IT_SYNC || o.front().len != it.len) return false;
+			if (recvd[0] != sent[0] || recvd[1] != sent[1]) return false;
+			script[side].pop_front();
+			o.pop_front();
+			return true;
+		}
+		case IT_WAIT_EPOCH:
+			// wait until both directions have switched keys it.len times and both sides are ready again
+			if (tap.epoch[0] < (int)it.len || tap.epoch[1] < (int)it.len) return false;
+			if (!ep[0]->handshake_done() || !ep[1]->handshake_done()) return false;
 			script[side].pop_front();
 			return true;
 		case IT_WAIT_PEER_IDLE:
